@@ -167,4 +167,39 @@ def GVals.Canon : GVals → Prop
   | .cons v r => v.Canon ∧ r.Canon
 end
 
+/-! #### mixed mode: an array that turns into key-value pairs -/
+
+/-- `key = { first rest… a₁ op₁ b₁  a₂ op₂ b₂ … }` written as: key, `write_array_start`, the
+elements, `start_mixed_mode`, then for every pair key, `write_operator`, value, finally `write_end`
+(scalars only: see the known finding `roundtrip-mixed-nested-operator` for nested objects) -/
+structure MixedDoc where
+  key : SCall
+  first : SCall
+  rest : List SCall
+  pairs : List (SCall × Writer.Op × SCall)
+
+def pairCalls : List (SCall × Writer.Op × SCall) → List Call
+  | [] => []
+  | (a, o, b) :: r => a.call :: (.operator o :: (b.call :: pairCalls r))
+
+def MixedDoc.calls (d : MixedDoc) : List Call :=
+  d.key.call :: (.arrayStart :: (d.first.call :: (d.rest.map SCall.call ++ (.mixedMode :: (pairCalls d.pairs ++ [.end])))))
+
+/-- in mixed mode the operator is written bare, glued to key and value -/
+def pairsText : List (SCall × Writer.Op × SCall) → Bytes
+  | [] => []
+  | (a, o, b) :: r => 32 :: (a.scal.text ++ (o.symbol ++ (b.scal.text ++ pairsText r)))
+
+def MixedDoc.text (c : UInt8) (f : Nat) (d : MixedDoc) : Bytes :=
+  d.key.scal.text ++ ([61, 123] ++ (([10] ++ ind c f 1) ++ (d.first.scal.text ++ (elemsText d.rest ++
+    (pairsText d.pairs ++ [10, 125])))))
+
+/-- the shape of what `std`'s `Display` prints for a finite `f32` / `f64` (with or without a
+precision): an optional `-`, at least one digit, optionally `.` and at least one digit.  `Display`
+never switches to exponent notation, whatever the magnitude (`1e300` prints as a 1 followed by
+300 zeros), so this covers every finite value; `NaN`, `inf`, `-inf` are the only other outputs. -/
+def FloatText (t : Bytes) : Prop :=
+  ∃ (neg : Bool) (ip fp : Bytes), t = (if neg then [45] else []) ++ (ip ++ fp) ∧ ip ≠ [] ∧ allDigits ip = true ∧
+    (fp = [] ∨ ∃ fd, fp = 46 :: fd ∧ fd ≠ [] ∧ allDigits fd = true)
+
 end Jomini.Writer.Spec
